@@ -6,6 +6,7 @@ package main
 import (
 	"io"
 	"log"
+	"os"
 	"strings"
 
 	"gopkg.in/src-d/hercules.v10/verifapi"
@@ -548,6 +549,10 @@ func main() {
 			}
 			runCase(c, kind, t0.Args()[0].Int(), n0.Args()[0].Int(), ops)
 		}
+		return
+	}
+	if os.Getenv("C03_ONLY") == "scale" { // development aid: the scale family alone
+		scaleFamily(c)
 		return
 	}
 	// exhaustive small scope
